@@ -156,8 +156,15 @@ func c13Ingest(seed int64, i int, sc c13Scenario, dir string, out *childOut) {
 		}
 	case "login-handoff-blocked":
 		if openW() {
-			w.WriteString("4242 Accepted password for bob from 10.0.0.1 port 22 ssh2\n")
-			reached = waitParked("sshd.processAcceptedPasswordEntry", "select|chan send", c13Watch)
+			// every accepted branch has its own hand-off site: cycle through them
+			lines := []string{
+				"4242 Accepted password for bob from 10.0.0.1 port 22 ssh2\n",
+				"4242 Accepted publickey for bob from 10.0.0.1 port 22 ssh2: ED25519 SHA256:abcdefghijklmnopqrstuvwxyz0123456789ABCDEFG\n",
+				"4242 Accepted publickey for bob from 10.0.0.1 port 22 ssh2: ED25519-CERT SHA256:abcdefghijklmnopqrstuvwxyz0123456789ABCDEFG ID bob@example.com (serial 7) CA ED25519 SHA256:caabcdefghijklmnopqrstuvwxyz0123456789ABC\n",
+				"4242 Accepted publickey for bob from 10.0.0.1 port 22 ssh2: ED25519 SHA256:abcdefghijklmnopqrstuvwxyz0123456789ABCDEFG trailing\n",
+			}
+			w.WriteString(lines[(i/len(c13Scenarios()))%len(lines)])
+			reached = waitParked("sshd.process", "select|chan send", c13Watch)
 		}
 	case "downstream-full-consumer-stopped":
 		if openW() {
